@@ -55,7 +55,14 @@ def run(tier, seed, replay=None):
         r = vlib.tlc(sc, "Offsets", "Offsets_asbuilt.cfg", workers=4, timeout=600)
         if not r.violated:
             log("note: the pre-fix arithmetic (DevCumulativeAck) no longer violates the model's invariants?")
+        import os
         scen = [scenario(rnd, i) for i in range(48 if thorough else 8)]
+        if thorough or os.environ.get("VERIF_C08_REFUSE"):
+            # the source refuses the first re-PSYNC (-LOADING): the tool backs off 30 s, then must ask for the very same byte
+            for j in range(3 if thorough else 1):
+                s = scenario(rnd, 1000 + j)
+                s.update({"drops": [5 + j], "refuse": 1, "idles": [2], "commands": 20, "budget_ms": 80000, "resume_at": 0})
+                scen.append(s)
         for i, s in enumerate(scen):
             s["trace"] = sc.path("trace-%d.ndjson" % i)
 
